@@ -22,6 +22,153 @@ use super::{
     ElasticNet, ElasticNetError, MultiTaskElasticNet, Result,
 };
 
+/// Verification hooks (`--cfg linfa_verif` only): step-level events of the coordinate-descent solvers
+/// (`cd.*` single task, `bcd.*` multi-task block coordinate descent): `start`, `coord` (one per coordinate
+/// of a sweep, also for skipped zero columns), `icpt` (the intercept step of a sweep), `sweep` (the stopping
+/// logic at the end of a sweep) and `end`.  They are recorded only when hook recording is on AND the process
+/// environment has `LINFA_VERIF_CD_STEPS=1` (read once), so that other consumers of hook events see an
+/// unchanged stream.  A float `v` is logged as `[round(v*1e6), round(v*1e9), flags]`; bit 0 (bit 1) of
+/// `flags` is set, and the number replaced by 0, when `v` is not finite or the scaled value is not below
+/// 2^30 in magnitude.  At most `MAX_SWEEPS` sweeps are logged step by step; `end` says how many were.
+#[cfg(linfa_verif)]
+mod verif_cd {
+    use linfa::verif_hook as vh;
+    use linfa::Float;
+
+    pub(super) const MAX_SWEEPS: u32 = 256;
+
+    pub(super) fn steps_on() -> bool {
+        use std::sync::OnceLock;
+        static STEPS: OnceLock<bool> = OnceLock::new();
+        vh::enabled()
+            && *STEPS.get_or_init(|| {
+                std::env::var("LINFA_VERIF_CD_STEPS")
+                    .map(|v| v == "1")
+                    .unwrap_or(false)
+            })
+    }
+
+    pub(super) fn q<F: Float>(v: F) -> String {
+        let v = v.to_f64().unwrap_or(f64::NAN);
+        let lim = 1073741824.0;
+        let (a, b) = ((v * 1e6).round(), (v * 1e9).round());
+        let (oka, okb) = (
+            a.is_finite() && a.abs() < lim,
+            b.is_finite() && b.abs() < lim,
+        );
+        format!(
+            "[{},{},{}]",
+            if oka { a as i64 } else { 0 },
+            if okb { b as i64 } else { 0 },
+            (!oka) as u8 + 2 * (!okb) as u8
+        )
+    }
+
+    pub(super) fn qv<'a, F: Float>(vs: impl IntoIterator<Item = &'a F>) -> String {
+        let cells: Vec<String> = vs.into_iter().map(|v| q(*v)).collect();
+        format!("[{}]", cells.join(","))
+    }
+
+    #[allow(clippy::too_many_arguments)]
+    pub(super) fn start<'a, F: Float>(
+        pre: &str,
+        n: usize,
+        p: usize,
+        t: usize,
+        penalty: F,
+        l1_ratio: F,
+        tol: F,
+        gap_tol: F,
+        gap0: F,
+        max_steps: u32,
+        fit_intercept: bool,
+        norms: impl IntoIterator<Item = &'a F>,
+    ) {
+        vh::emit(&format!(
+            "\"ev\":\"{}.start\",\"n\":{},\"p\":{},\"t\":{},\"pen\":{},\"l1r\":{},\"tol\":{},\"gtol\":{},\"gap0\":{},\"maxit\":{},\"icpt\":{},\"norms\":{}",
+            pre, n, p, t, q(penalty), q(l1_ratio), q(tol), q(gap_tol), q(gap0), max_steps, fit_intercept as u8, qv(norms)
+        ));
+    }
+
+    /// coordinate `j` (0-based) of sweep `sweep` (1-based): skipped zero column or the old coefficient(s),
+    /// the correlation term(s) `x_j . (r + x_j w_j)`, the new coefficient(s) and the residual afterwards
+    #[allow(clippy::too_many_arguments)]
+    pub(super) fn coord<'a, F: Float>(
+        pre: &str,
+        sweep: u32,
+        j: usize,
+        skip: bool,
+        old: impl IntoIterator<Item = &'a F>,
+        corr: impl IntoIterator<Item = &'a F>,
+        new: impl IntoIterator<Item = &'a F>,
+        r: impl IntoIterator<Item = &'a F>,
+    ) {
+        if sweep > MAX_SWEEPS {
+            return;
+        }
+        vh::emit(&format!(
+            "\"ev\":\"{}.coord\",\"sweep\":{},\"j\":{},\"skip\":{},\"old\":{},\"corr\":{},\"new\":{},\"r\":{}",
+            pre, sweep, j, skip as u8, qv(old), qv(corr), qv(new), qv(r)
+        ));
+    }
+
+    /// the intercept step of sweep `sweep`: mean(s) of the residual moved into the intercept, the accumulated
+    /// shift(s) and the residual afterwards
+    pub(super) fn icpt<'a, F: Float>(
+        pre: &str,
+        sweep: u32,
+        r_mean: impl IntoIterator<Item = &'a F>,
+        shift: impl IntoIterator<Item = &'a F>,
+        r: impl IntoIterator<Item = &'a F>,
+    ) {
+        if sweep > MAX_SWEEPS {
+            return;
+        }
+        vh::emit(&format!(
+            "\"ev\":\"{}.icpt\",\"sweep\":{},\"rmean\":{},\"shift\":{},\"r\":{}",
+            pre,
+            sweep,
+            qv(r_mean),
+            qv(shift),
+            qv(r)
+        ));
+    }
+
+    /// end of sweep `sweep` (= `n_steps` after the increment): the quantities of the stopping logic.  `pre`
+    /// = the pre-check (last-but-one sweep / all coefficients zero / small relative change) fired and the
+    /// duality gap `gap` was computed and compared with `gap_tol`; `dec`: 0 = continue, 1 = converged
+    /// (gap below the tolerance), 2 = the sweep budget is used up
+    #[allow(clippy::too_many_arguments)]
+    pub(super) fn sweep<F: Float>(
+        pre: &str,
+        sweep: u32,
+        d_w_max: F,
+        w_max: F,
+        fired: bool,
+        gap: F,
+        gap_tol: F,
+        dec: u8,
+    ) {
+        if sweep > MAX_SWEEPS {
+            return;
+        }
+        vh::emit(&format!(
+            "\"ev\":\"{}.sweep\",\"sweep\":{},\"dwmax\":{},\"wmax\":{},\"pre\":{},\"gap\":{},\"gtol\":{},\"dec\":{}",
+            pre, sweep, q(d_w_max), q(w_max), fired as u8, q(gap), q(gap_tol), dec
+        ));
+    }
+
+    pub(super) fn end<F: Float>(pre: &str, n_steps: u32, gap: F) {
+        vh::emit(&format!(
+            "\"ev\":\"{}.end\",\"steps\":{},\"logged\":{},\"gap\":{}",
+            pre,
+            n_steps,
+            n_steps.min(MAX_SWEEPS),
+            q(gap)
+        ));
+    }
+}
+
 impl<F, D, T> Fit<ArrayBase<D, Ix2>, T, ElasticNetError> for ElasticNetValidParams<F>
 where
     F: Float,
@@ -309,11 +456,34 @@ fn coordinate_descent_with_intercept<'a, F: Float>(
     let mut gap = F::one() + tol;
     let d_w_tol = tol;
     let tol = tol * y.dot(&y);
+    #[cfg(linfa_verif)]
+    let vsteps = verif_cd::steps_on();
+    #[cfg(linfa_verif)]
+    if vsteps {
+        verif_cd::start(
+            "cd",
+            x.nrows(),
+            n_features,
+            1,
+            penalty,
+            l1_ratio,
+            d_w_tol,
+            tol,
+            gap,
+            max_steps,
+            fit_intercept,
+            norm_cols_x.iter(),
+        );
+    }
     while n_steps < max_steps {
         let mut w_max = F::zero();
         let mut d_w_max = F::zero();
         for j in 0..n_features {
             if abs_diff_eq!(norm_cols_x[j], F::zero()) {
+                #[cfg(linfa_verif)]
+                if vsteps {
+                    verif_cd::coord("cd", n_steps + 1, j, true, &[w[j]], &[], &[w[j]], r.iter());
+                }
                 continue;
             }
             let old_w_j = w[j];
@@ -330,6 +500,19 @@ fn coordinate_descent_with_intercept<'a, F: Float>(
             let d_w_j = (w[j] - old_w_j).abs();
             d_w_max = F::max(d_w_max, d_w_j);
             w_max = F::max(w_max, w[j].abs());
+            #[cfg(linfa_verif)]
+            if vsteps {
+                verif_cd::coord(
+                    "cd",
+                    n_steps + 1,
+                    j,
+                    false,
+                    &[old_w_j],
+                    &[tmp],
+                    &[w[j]],
+                    r.iter(),
+                );
+            }
         }
         if fit_intercept {
             // exact minimization over the intercept: the residuals sum to zero afterwards, which
@@ -337,17 +520,40 @@ fn coordinate_descent_with_intercept<'a, F: Float>(
             let r_mean = r.sum() / n_samples;
             intercept_shift += r_mean;
             r.mapv_inplace(|r_i| r_i - r_mean);
+            #[cfg(linfa_verif)]
+            if vsteps {
+                verif_cd::icpt("cd", n_steps + 1, &[r_mean], &[intercept_shift], r.iter());
+            }
         }
         n_steps += 1;
 
+        #[cfg(linfa_verif)]
+        let mut vfired = false;
         if n_steps == max_steps - 1 || abs_diff_eq!(w_max, F::zero()) || d_w_max / w_max < d_w_tol {
             // We've hit one potential stopping criteria
             // check duality gap for ultimate stopping criterion
             gap = duality_gap(x.view(), y.view(), w.view(), r.view(), l1_ratio, penalty);
+            #[cfg(linfa_verif)]
+            {
+                vfired = true;
+            }
             if gap < tol {
+                #[cfg(linfa_verif)]
+                if vsteps {
+                    verif_cd::sweep("cd", n_steps, d_w_max, w_max, true, gap, tol, 1);
+                }
                 break;
             }
         }
+        #[cfg(linfa_verif)]
+        if vsteps {
+            let dec = if n_steps < max_steps { 0 } else { 2 };
+            verif_cd::sweep("cd", n_steps, d_w_max, w_max, vfired, gap, tol, dec);
+        }
+    }
+    #[cfg(linfa_verif)]
+    if vsteps {
+        verif_cd::end("cd", n_steps, gap);
     }
     (w, intercept_shift, gap, n_steps)
 }
@@ -390,16 +596,51 @@ fn block_coordinate_descent_with_intercept<'a, F: Float>(
     let mut gap = F::one() + tol;
     let d_w_tol = tol;
     let tol = tol * y.iter().map(|&y_ij| y_ij * y_ij).sum();
+    #[cfg(linfa_verif)]
+    let vsteps = verif_cd::steps_on();
+    #[cfg(linfa_verif)]
+    if vsteps {
+        verif_cd::start(
+            "bcd",
+            x.nrows(),
+            n_features,
+            n_tasks,
+            penalty,
+            l1_ratio,
+            d_w_tol,
+            tol,
+            gap,
+            max_steps,
+            fit_intercept,
+            norm_cols_x.iter(),
+        );
+    }
     while n_steps < max_steps {
         let mut w_max = F::zero();
         let mut d_w_max = F::zero();
         for j in 0..n_features {
             if abs_diff_eq!(norm_cols_x[j], F::zero()) {
+                #[cfg(linfa_verif)]
+                if vsteps {
+                    let row = w.row(j);
+                    verif_cd::coord(
+                        "bcd",
+                        n_steps + 1,
+                        j,
+                        true,
+                        row.iter(),
+                        &[],
+                        row.iter(),
+                        r.iter(),
+                    );
+                }
                 continue;
             }
             let mut old_w_j = w.slice_mut(s![j, ..]);
             let x_j = x.slice(s![.., j]);
             let norm_old_w_j = old_w_j.dot(&old_w_j).sqrt();
+            #[cfg(linfa_verif)]
+            let v_old = old_w_j.to_owned();
             if abs_diff_ne!(norm_old_w_j, F::zero()) {
                 // r += outer(x_j, old_w_j)
                 general_mat_mul(
@@ -429,22 +670,65 @@ fn block_coordinate_descent_with_intercept<'a, F: Float>(
             let d_w_j = (norm_w_j - norm_old_w_j).abs();
             d_w_max = F::max(d_w_max, d_w_j);
             w_max = F::max(w_max, norm_w_j);
+            #[cfg(linfa_verif)]
+            if vsteps {
+                let row = w.row(j);
+                verif_cd::coord(
+                    "bcd",
+                    n_steps + 1,
+                    j,
+                    false,
+                    v_old.iter(),
+                    tmp.iter(),
+                    row.iter(),
+                    r.iter(),
+                );
+            }
         }
         if fit_intercept {
             let r_mean = r.sum_axis(Axis(0)) / n_samples;
             intercept_shift += &r_mean;
             r -= &r_mean;
+            #[cfg(linfa_verif)]
+            if vsteps {
+                verif_cd::icpt(
+                    "bcd",
+                    n_steps + 1,
+                    r_mean.iter(),
+                    intercept_shift.iter(),
+                    r.iter(),
+                );
+            }
         }
         n_steps += 1;
 
+        #[cfg(linfa_verif)]
+        let mut vfired = false;
         if n_steps == max_steps - 1 || abs_diff_eq!(w_max, F::zero()) || d_w_max / w_max < d_w_tol {
             // We've hit one potential stopping criteria
             // check duality gap for ultimate stopping criterion
             gap = duality_gap_mtl(x.view(), y.view(), w.view(), r.view(), l1_ratio, penalty);
+            #[cfg(linfa_verif)]
+            {
+                vfired = true;
+            }
             if gap < tol {
+                #[cfg(linfa_verif)]
+                if vsteps {
+                    verif_cd::sweep("bcd", n_steps, d_w_max, w_max, true, gap, tol, 1);
+                }
                 break;
             }
         }
+        #[cfg(linfa_verif)]
+        if vsteps {
+            let dec = if n_steps < max_steps { 0 } else { 2 };
+            verif_cd::sweep("bcd", n_steps, d_w_max, w_max, vfired, gap, tol, dec);
+        }
+    }
+    #[cfg(linfa_verif)]
+    if vsteps {
+        verif_cd::end("bcd", n_steps, gap);
     }
 
     (w, intercept_shift, gap, n_steps)
